@@ -92,6 +92,10 @@ func (fx *FuncExec) execCall(st *State, instr ssa.Instruction, c *ssa.CallCommon
 	}
 	fx.callOrd[short]++
 	ord := fx.callOrd[short]
+	if st.called == nil {
+		st.called = map[string]string{}
+	}
+	st.called[short] = "true"
 	if fx.callNames == nil {
 		fx.callNames = map[ssa.Instruction]string{}
 	}
